@@ -24,7 +24,15 @@ func ClientPost(c *http.Client, url, contentType string, body io.Reader) (*http.
 	if Bool("http.fails") {
 		return nil, errTransport
 	}
-	return &http.Response{StatusCode: int(U64("http.status")), Status: Str("http.statusText"), Body: &StrReader{S: Str("http.respBody")}}, nil
+	return &http.Response{StatusCode: int(U64("http.status")), Status: Str("http.statusText"), Body: &StrReader{S: Str("http.respBody")}, ContentLength: respContentLength(), Header: http.Header{}}, nil
+}
+
+// respContentLength: net/http reports -1 when the answer declares no length (chunked or
+// close-delimited), otherwise the declared value, which a hostile server chooses freely.
+func respContentLength() int64 {
+	n := int64(U64("http.contentLength"))
+	Assume(n >= -1)
+	return n
 }
 
 // ClientGet records the URL and answers with an arbitrary status / body, or a transport error.
@@ -35,7 +43,7 @@ func ClientGet(c *http.Client, url string) (*http.Response, error) {
 	if Bool("http.fails") {
 		return nil, errTransport
 	}
-	return &http.Response{StatusCode: int(U64("http.status")), Status: Str("http.statusText"), Body: &StrReader{S: Str("http.respBody")}}, nil
+	return &http.Response{StatusCode: int(U64("http.status")), Status: Str("http.statusText"), Body: &StrReader{S: Str("http.respBody")}, ContentLength: respContentLength(), Header: http.Header{}}, nil
 }
 
 // ---------- URLs ----------
@@ -48,20 +56,34 @@ func URLParse(raw string) (*url.URL, error) {
 		Log(Ev{K: "urlfail"})
 		return nil, errTransport
 	}
-	u := &url.URL{}
-	urlRaw[u] = raw
-	return u, nil
+	return URLOf(raw), nil
 }
 
-// URLOf builds a *url.URL that stands for the given text.
+// URLOf builds a *url.URL that stands for the given text: its components are (uninterpreted)
+// functions of the text.
 func URLOf(raw string) *url.URL {
-	u := &url.URL{}
+	u := &url.URL{Scheme: UFStr("urlScheme", raw), Host: UFStr("urlHost", raw), Path: UFStr("urlPath", raw), RawPath: UFStr("urlRawPath", raw), RawQuery: UFStr("urlRawQuery", raw), Fragment: UFStr("urlFragment", raw)}
 	urlRaw[u] = raw
 	return u
 }
 
+// String: a parsed URL prints as the text it was parsed from (no normalisation is modelled). If
+// the code under analysis changed a component, the result is an uninterpreted function of the
+// components - escaping rules are not modelled - and the path is weak.
+//
 //wsym:replace (*net/url.URL).String
-func URLString(u *url.URL) string { return urlRaw[u] }
+func URLString(u *url.URL) string {
+	raw, ok := urlRaw[u]
+	if !ok {
+		Unsupported("url.URL that was not produced by url.Parse")
+	}
+	same := u.Scheme == UFStr("urlScheme", raw) && u.Host == UFStr("urlHost", raw) && u.Path == UFStr("urlPath", raw) && u.RawPath == UFStr("urlRawPath", raw) && u.RawQuery == UFStr("urlRawQuery", raw) && u.Fragment == UFStr("urlFragment", raw)
+	if same {
+		return raw
+	}
+	Weak("url.URL components changed after parsing: String() is an uninterpreted function of them (escaping not modelled)")
+	return UFStr("urlStringOf", u.Scheme, u.Host, u.Path, u.RawPath, u.RawQuery, u.Fragment)
+}
 
 // Resolution of a relative reference against a base is the (uninterpreted) function urlJoin.
 //
@@ -163,7 +185,7 @@ func ClientDo(c *http.Client, r *http.Request) (*http.Response, error) {
 	// the response body arrives over the same connection: reading it may fail
 	readFails := Param("io_faults", 0) == 1 && Bool("http.bodyReadFails")
 	Log(Ev{K: "http.resp", U: []uint64{1, status, IteU64(readFails, 1, 0)}, B: [][]byte{[]byte(final.Method)}})
-	return &http.Response{StatusCode: int(status), Status: Str("http.statusText"), Body: &StrReader{S: Str("http.respBody"), FailRead: readFails}, Request: final}, nil
+	return &http.Response{StatusCode: int(status), Status: Str("http.statusText"), Body: &StrReader{S: Str("http.respBody"), FailRead: readFails}, Request: final, ContentLength: respContentLength(), Header: http.Header{}}, nil
 }
 
 // ---------- server side ----------
